@@ -251,12 +251,23 @@ def make_solver(method, sde, bm, h, options=None):
         raise Refused(str(e))
 
 
-def one_step(method, sde, options, t0, h, y0, W, U, A, levy="foster"):
+def one_step(method, sde, options, t0, h, y0, W, U, A, levy="foster", warm_up=False):
     """solver.step(t0, t0 + h, y0, extra0) with the prescribed increments; returns (y1, strong_order)."""
     t0_ = torch.tensor(float(t0), dtype=DT)
     t1_ = torch.tensor(float(t0) + float(h), dtype=DT)
     bm = StubBrownian(W, U, A, levy, interval=(float(t0_), float(t1_)))
     solver = make_solver(method, sde, bm, torch.tensor(float(h), dtype=DT), options)
     extra0 = solver.init_extra_solver_state(t0_, y0)
+    if warm_up:
+        # A step is a function of (t0, t1, y0, extra0) and the increments only: whatever the solver OBJECT did before
+        # must not matter.  The same object first takes a step of a different length (4 h, from another state, with
+        # other increments) - as the clipped last step of a solve follows longer steps - and its result is dropped.
+        bm.interval = None
+        keep = (bm.W, bm.U, bm.A)
+        bm.W, bm.U, bm.A = 2.0 * W + 0.25, (None if U is None else 8.0 * U - 0.125), (None if A is None else -4.0 * A)
+        solver.step(t0_ - 4.0 * float(h), t0_, y0 + 0.5, solver.init_extra_solver_state(t0_ - 4.0 * float(h), y0 + 0.5))
+        bm.W, bm.U, bm.A = keep
+        bm.interval = (float(t0_), float(t1_))
+        bm.queries = 0
     y1, _ = solver.step(t0_, t1_, y0, extra0)
     return y1.detach(), float(solver.strong_order), bm.queries
